@@ -11,11 +11,14 @@ package main
 
 import "math/rand"
 
-var rpKinds = []string{"json", "gj"}
+var rpKinds = []string{"json", "gj", "hj", "hjp"}
 
 func rpTails(kind string) []string {
-	if kind == "json" {
+	switch kind {
+	case "json":
 		return []string{"ok", "tr", "bad", "nofile", "slowopen", "rderr"}
+	case "hj", "hjp":
+		return []string{"ok", "tr", "bad"}
 	}
 	return []string{"ok", "tr", "bad", "nofile", "slowopen"}
 }
@@ -55,6 +58,9 @@ func plainRound6() []planT {
 	for _, kind := range rpKinds {
 		for _, tail := range rpTails(kind) {
 			for _, k := range []int{0, 1, 3} {
+				if k == 0 && (kind == "hj" || kind == "hjp") {
+					continue // the http provider reads the head of its file when it is constructed
+				}
 				for _, per := range []int{0, 1} {
 					add("none", 10, rp(kind, k, tail, func(p *pspec) { p.per = per }))
 				}
@@ -73,7 +79,9 @@ func plainRound6() []planT {
 		// a long source, many instances
 		add("none", 9, rp(kind, 300, "tr", func(p *pspec) { p.inst = 8 }))
 		add("none", 9, rp(kind, 300, "ok", func(p *pspec) { p.inst = 8 }))
-		add("none", 9, rp(kind, 40, "slowopen", func(p *pspec) { p.inst = 70 }))
+		if kind == "json" || kind == "gj" {
+			add("none", 9, rp(kind, 40, "slowopen", func(p *pspec) { p.inst = 70 }))
+		}
 	}
 	return out
 }
@@ -85,6 +93,9 @@ func randomRp(r *rand.Rand) planT {
 	tails := rpTails(kind)
 	p := &pl.pools[0]
 	k := r.Intn(7)
+	if kind == "hj" || kind == "hjp" {
+		k++
+	}
 	p.rp = rpTok(kind, k, tails[r.Intn(len(tails))])
 	p.prov = "late.nil"
 	p.ammo = k
